@@ -254,6 +254,7 @@ class GoChan:
     def __init__(self, cap):
         self.buf = []
         self.cap = cap
+        self.closed = False
 
 
 class MapIter:
@@ -412,6 +413,22 @@ def wrap(v, bits, signed):
     return v
 
 
+class _GorKilled(BaseException):
+    pass
+
+
+class _Gor:
+    def __init__(self, thread):
+        import threading
+        self.thread = thread
+        self.frames, self.depth = [], 0
+        self.ev = threading.Event()
+        self.done = False
+        self.kill = False
+        self.waiting = None
+        self.is_main = False
+
+
 class Frame:
     __slots__ = ('fn', 'regs', 'defers', 'panicking', 'recovered', 'result')
 
@@ -444,6 +461,112 @@ class Machine:
         self.names = NameTable()
         self.store_hook = None
         self.env = {}
+
+    # ------------------------------------------------------------------ goroutines
+    # One schedule is explored, not all interleavings: a goroutine runs when it is spawned, until it ends or blocks; a blocked
+    # goroutine resumes (first spawned first) when the operation it waits for can proceed.  What this decides for every schedule
+    # is only what does not depend on the schedule: a state in which NO goroutine can proceed is a deadlock ("all goroutines are
+    # asleep"), reported as a panic outcome.  Each goroutine is a Python thread; exactly one runs at any time (baton passing).
+    def _gor_init(self):
+        if getattr(self, 'gor', None) is None:
+            import threading
+            main = _Gor(None)
+            main.is_main = True
+            self.gor = {'cur': main, 'all': [main], 'fatal': None, 'threading': threading}
+        return self.gor
+
+    def _gor_switch(self, me, to):
+        """hand the baton from goroutine `me` to goroutine `to` and sleep until somebody hands it back"""
+        me.frames, me.depth = self.frames, self.depth
+        self.frames, self.depth = to.frames, to.depth
+        self.gor['cur'] = to
+        me.ev.clear()
+        to.ev.set()
+        if not me.done:
+            me.ev.wait()
+            if me.kill:
+                raise _GorKilled()
+        # resumed: the machine's frame stack is ours again (the one who handed over has restored it)
+
+    def gor_spawn(self, fn_value, args):
+        G = self._gor_init()
+        me = G['cur']
+        g = _Gor(None)
+        G['all'].append(g)
+        M = self
+
+        def body():
+            g.ev.wait()
+            try:
+                if not g.kill:
+                    M.call_value(fn_value, args)
+            except _GorKilled:
+                pass
+            except BaseException as ex:        # a panic in any goroutine ends the program; engine errors travel to the main one
+                if G['fatal'] is None:
+                    G['fatal'] = ex
+            g.done = True
+            if g.kill:
+                return
+            # pick who runs next: the spawner if it is merely waiting for us to yield, else any runnable goroutine
+            nxt = M._gor_pick(exclude=g)
+            if nxt is None:
+                nxt = G['all'][0]
+                if G['fatal'] is None:
+                    G['fatal'] = GoPanic('deadlock', 'all goroutines are asleep - deadlock!', '')
+            M._gor_switch(g, nxt)
+        g.thread = G['threading'].Thread(target=body, daemon=True)
+        g.thread.start()
+        self._gor_switch(me, g)
+        self._gor_check_fatal(me)
+
+    def _gor_check_fatal(self, me):
+        G = self.gor
+        if G['fatal'] is not None and me.is_main:
+            ex = G['fatal']
+            G['fatal'] = None
+            self.gor_killall()
+            raise ex
+
+    def _gor_pick(self, exclude=None):
+        for g in self.gor['all']:
+            if g is exclude or g.done:
+                continue
+            if g.waiting is None or g.waiting():
+                return g
+        return None
+
+    def gor_block(self, can_proceed, what):
+        """the running goroutine cannot proceed until can_proceed() holds: let the others run"""
+        G = self._gor_init()
+        me = G['cur']
+        while not can_proceed():
+            me.waiting = can_proceed
+            nxt = self._gor_pick(exclude=me)
+            if nxt is None:
+                me.waiting = None
+                if me.is_main:
+                    self.gor_killall()
+                    raise GoPanic('deadlock', 'all goroutines are asleep - deadlock! (%s)' % what, '')
+                if G['fatal'] is None:
+                    G['fatal'] = GoPanic('deadlock', 'all goroutines are asleep - deadlock! (%s)' % what, '')
+                me.waiting = lambda: False
+                self._gor_switch(me, G['all'][0])
+                continue
+            self._gor_switch(me, nxt)
+            me.waiting = None
+            self._gor_check_fatal(me)
+        me.waiting = None
+
+    def gor_killall(self):
+        G = getattr(self, 'gor', None)
+        if not G:
+            return
+        for g in G['all'][1:]:
+            if not g.done:
+                g.kill = True
+                g.done = True
+                g.ev.set()
 
     # ------------------------------------------------------------------ memory
     def gptr(self, name, tid):
@@ -535,6 +658,11 @@ class Machine:
             raise GoPanic('nil-deref', 'call of nil func', pos)
         if isinstance(f, Closure):
             return self.call(f.fid, args, f.binds, pos)
+        if type(f).__name__ == '_WgGo':
+            try:
+                return self.call_value(f.f, args, pos)
+            finally:
+                f.w[0] -= 1
         raise Unsupported('call of %r' % (f,))
 
     def call(self, fid, args, binds=(), pos=''):
@@ -711,8 +839,13 @@ class Machine:
         if o == '*':
             return cp(self.load(x, ins.get('pos', '')))
         if o == '<-':
-            if x is None or not x.buf:
-                raise Unsupported('receive that would block (no other goroutine is modelled)')
+            if x is None:
+                self.gor_block(lambda: False, 'receive from a nil channel')
+            if not x.buf and not x.closed:
+                self.gor_block(lambda: bool(x.buf) or x.closed, 'receive from an empty channel')
+            if not x.buf and x.closed:
+                z = self.p.zero(ins['t']) if not ins.get('flag') else self.p.zero(self.p.T[ins['t']]['tuple'][0])
+                return (z, False) if ins.get('flag') else z
             v = x.buf.pop(0)
             return (v, True) if ins.get('flag') else v
         if o == '!':
@@ -1008,8 +1141,20 @@ class Machine:
             return GoChan(self.cint(val(fr, A[0]), 'channel capacity'))
         if op == 'Send':
             ch = val(fr, A[0])
-            if ch is None or len(ch.buf) >= ch.cap:
-                raise Unsupported('send that would block (no other goroutine is modelled)')
+            if ch is None:
+                self.gor_block(lambda: False, 'send on a nil channel')
+            if ch.closed:
+                raise GoPanic('explicit', 'send on closed channel', ins.get('pos', ''))
+            if len(ch.buf) >= max(ch.cap, 0) and not (ch.cap == 0 and getattr(ch, 'receivers', 0) > 0):
+                # unbuffered channels are treated as capacity 1 with the sender waiting until the value is taken
+                if ch.cap == 0:
+                    ch.buf.append(cp(val(fr, A[1])))
+                    mark = len(ch.buf)
+                    self.gor_block(lambda: not ch.buf, 'send on an unbuffered channel nobody receives from')
+                    return None
+                self.gor_block(lambda: ch.closed or len(ch.buf) < ch.cap, 'send on a full channel')
+                if ch.closed:
+                    raise GoPanic('explicit', 'send on closed channel', ins.get('pos', ''))
             ch.buf.append(cp(val(fr, A[1])))
             return None
         if op == 'Select':
@@ -1034,7 +1179,11 @@ class Machine:
                 raise Unsupported('select that would block (no other goroutine is modelled)')
             return tuple(out)
         if op == 'Go':
-            raise Unsupported('concurrency instruction ' + op)
+            f = val(fr, A[0]) if ins['sub'] == 'call' else None
+            if ins['sub'] != 'call':
+                raise Unsupported('go statement on an interface method')
+            self.gor_spawn(f, [cp(val(fr, a)) for a in A[1:]])
+            return None
         if op == 'SliceToArrayPointer':
             raise Unsupported(op)
         raise Unsupported('instruction ' + op)
@@ -1240,6 +1389,16 @@ class Machine:
     # ------------------------------------------------------------------ builtins
     def builtin(self, fr, name, args, ins):
         pos = ins.get('pos', '')
+        if name == 'close':
+            ch = args[0]
+            if ch is None:
+                raise GoPanic('explicit', 'close of nil channel', pos)
+            if ch.closed:
+                raise GoPanic('explicit', 'close of closed channel', pos)
+            ch.closed = True
+            return None
+        if name in ('len', 'cap') and isinstance(args[0], GoChan):
+            return len(args[0].buf) if name == 'len' else args[0].cap
         if name == 'len':
             x = args[0]
             if isinstance(x, SymName):
